@@ -1,0 +1,24 @@
+//go:build verif && (amd64 || arm64)
+
+package sm4
+
+import "crypto/cipher"
+
+func VerifCandoAsm() bool     { return candoAsm }
+func VerifSetCandoAsm(b bool) { candoAsm = b }
+
+func VerifExpandKeyAsm(key *byte, enc, dec *uint32)    { expandKeyAsm(key, enc, dec) }
+func VerifCryptoBlockAsm(rk *uint32, dst, src *byte)   { cryptoBlockAsm(rk, dst, src) }
+func VerifCryptoBlockAsmX2(rk *uint32, dst, src *byte) { cryptoBlockAsmX2(rk, dst, src) }
+func VerifCryptoBlockAsmX4(rk *uint32, dst, src *byte) { cryptoBlockAsmX4(rk, dst, src) }
+func VerifCryptoBlockAsmX8(rk *uint32, dst, src *byte) { cryptoBlockAsmX8(rk, dst, src) }
+func VerifGHashBlocks(H *byte, tag *byte, data *byte, count int) {
+	gHashBlocks(H, tag, data, count)
+}
+
+func verifRoundKeysAsm(b cipher.Block) (enc, dec [32]uint32, ok bool) {
+	if c, isAsm := b.(*sm4CipherAsm); isAsm {
+		return c.enc, c.dec, true
+	}
+	return
+}
